@@ -96,6 +96,15 @@ def cases(tier, rng):
         good = [p for p in NAMES if (l, p) in COMPAT][0]
         out.append("w%d sock %s / attach p %s / attach a %s id=next+1 / attach q %s / dropped p / dropped a / dropped q" % (k, l, good, good, good))
         k += 1
+    # a connection that must be refused (incompatible Socket-Type, old version, bad signature) and claims the identity of
+    # an established peer: refused, and the established peer is untouched
+    for l in LOCALS:
+        good = [p for p in NAMES if (l, p) in COMPAT][0]
+        bad = [p for p in NAMES if (l, p) not in COMPAT][0]
+        for how in ("attach x %s id=6964" % bad, "attach x %s id=6964 ver=2.0" % good, "attach x %s id=6964 sig=bad9" % good):
+            extra = " extra=" + W.tok(EXTRA[l]) if EXTRA[l] else ""
+            out.append("y%d sock %s / attach a %s id=6964%s / %s / %s / dropped a" % (k, l, good, extra, how, PROBE[l]))
+            k += 1
     # admission is independent of segmentation (C02 hand-over) and needs no EOF
     for l in LOCALS:
         good = [p for p in NAMES if (l, p) in COMPAT][0]
@@ -110,7 +119,7 @@ _model_cases = {}
 
 
 def compare_filter(line):
-    return not line.startswith("w")
+    return not line.startswith(("w", "y"))
 
 
 def model_cases(case_lines):
@@ -121,7 +130,7 @@ def model_cases(case_lines):
         if sp[1] != "sock":
             mc.append(line)
             continue
-        if sp[0].startswith(("u", "w")):
+        if sp[0].startswith(("u", "w", "y")):
             mc.append(line)
             continue
         raw = [t for t in sp if t.startswith("raw=")][0][4:]
@@ -176,6 +185,13 @@ def judge(line, impl_obs, orc):
         return None if impl_obs == want else "socket type name %r -> %s" % (name, impl_obs)
     local = sp[2]
     toks = impl_obs.split()
+    if sp[0].startswith("y"):
+        if len(toks) < 3 or toks[0] != "att:a=ok:6964" or not toks[1].startswith("att:x=err"):
+            return "an incompatible / malformed handshake claiming an established peer's identity: " + impl_obs[:120]
+        exp = expected_probe(local, "ok:6964", None)
+        if toks[2:-1] != exp[:-1] or toks[-1] not in ("dropped:a=-", "dropped:a=r" if local == "PUSH" else "dropped:a=-"):
+            return "a refused handshake claiming the identity of an established peer disturbed that peer: %s (expected %s)" % (" ".join(toks[2:])[:160], " ".join(exp)[:160])
+        return None
     if sp[0].startswith("w"):
         keep = "r" if local == "PUSH" else "-"
         ok = (len(toks) == 6 and toks[0] == "att:p=ok:auto" and toks[1].startswith("att:a=ok:") and "auto" not in toks[1]
